@@ -482,6 +482,42 @@ type c08Fataler interface {
 	Fatalf(format string, args ...any)
 }
 
+// c08CheckFinalGroup compares the real finalSigningGroup with the model for
+// the wallet's selected group and remaining members (cheap, needs no shares).
+func c08CheckFinalGroup(t c08Fataler, w *c08Wallet) {
+	ops, _, err := c08Operators()
+	if err != nil {
+		t.Fatalf("harness: %v", err)
+	}
+	selected := make([]chain.Address, w.n)
+	for i := range selected {
+		selected[i] = ops[w.seatOp[i]].address
+	}
+	// hand the remaining members over in the order Group.OperatingMemberIndexes does
+	g := group.NewGroup(w.n-w.honest, w.n)
+	for _, e := range w.excluded {
+		g.MarkMemberAsDisqualified(e)
+	}
+	finalOps, finalIdx, err := finalSigningGroup(
+		append([]chain.Address{}, selected...), g.OperatingMemberIndexes(),
+		&GroupParameters{GroupSize: w.n, GroupQuorum: w.quorum, HonestThreshold: w.honest},
+	)
+	if err != nil {
+		t.Fatalf("finalSigningGroup rejected %d remaining members with quorum %d: %v; %s", len(w.operating), w.quorum, err, w.describe())
+	}
+	if len(finalOps) != len(w.operating) || len(finalIdx) != len(w.operating) {
+		t.Fatalf("finalSigningGroup returned %d operators / %d indices for %d remaining members; %s", len(finalOps), len(finalIdx), len(w.operating), w.describe())
+	}
+	for i, d := range w.operating {
+		if finalIdx[d] != group.MemberIndex(i+1) {
+			t.Fatalf("finalSigningGroup maps key generation member %d to final index %d, expected %d; %s", d, finalIdx[d], i+1, w.describe())
+		}
+		if finalOps[i] != selected[d-1] {
+			t.Fatalf("finalSigningGroup puts operator %v at final index %d, expected the operator of key generation member %d (%v); %s", finalOps[i], i+1, d, selected[d-1], w.describe())
+		}
+	}
+}
+
 // c08Register passes every remaining member's key generation result through
 // the real registerSigner of its operator's node, compares what was stored
 // with the model, optionally re-loads the signers from storage (node restart)
@@ -820,7 +856,7 @@ func c08Debugf(format string, args ...any) {
 // ------------------------------------------------------------------ generators
 
 func c08DrawMessage(t *rapid.T, label string) (*big.Int, string) {
-	kind := rapid.SampledFrom([]string{"random", "random", "random", "random", "small", "short", "n-1", "high-bit", "low-bit-only", "zero"}).Draw(t, label+"Kind")
+	kind := rapid.SampledFrom([]string{"n-1", "high-bit", "zero", "short", "small", "low-bit-only", "random", "random", "random", "random"}).Draw(t, label+"Kind")
 	var m *big.Int
 	switch kind {
 	case "small":
@@ -848,11 +884,16 @@ func c08DrawMessage(t *rapid.T, label string) (*big.Int, string) {
 	return m, kind
 }
 
-// c08DrawSubset draws `size` of the final indices 1..m.
+// c08DrawSubset draws `size` of the final indices 1..m; half of the time (when
+// possible) the subset avoids final index 1.
 func c08DrawSubset(t *rapid.T, m, size int, label string) []group.MemberIndex {
-	all := make([]int, m)
-	for i := range all {
-		all[i] = i + 1
+	first := 1
+	if m > size && rapid.Bool().Draw(t, label+"AvoidIndex1") {
+		first = 2
+	}
+	var all []int
+	for i := first; i <= m; i++ {
+		all = append(all, i)
 	}
 	perm := rapid.Permutation(all).Draw(t, label)
 	pick := append([]int{}, perm[:size]...)
@@ -1026,6 +1067,7 @@ func TestVerif_C08_FixtureWallets(t *testing.T) {
 		w := c08DrawFixtureWallet(t)
 		reload := rapid.Bool().Draw(t, "reloadFromStorage")
 		c, kind := c08DrawSignCase(t, w, "sign", true)
+		c08CheckFinalGroup(t, w)
 		signers := c08Register(t, w, reload)
 		c08Debugf("case: reload=%v %s; %s", reload, c.describe(), w.describe())
 		out, err := c08Sign(w, signers, c, c08SignBudget)
@@ -1257,7 +1299,7 @@ func c08DrawDkgWallet(t *rapid.T) *c08Wallet {
 	}
 	minOperating := h
 	// prefer wallets with more than one honest-threshold subset
-	m := rapid.SampledFrom([]int{minOperating, minOperating + 1, minOperating + 1, maxOperating}).Draw(t, "operating")
+	m := rapid.SampledFrom([]int{minOperating + 1, minOperating + 1, maxOperating, minOperating}).Draw(t, "operating")
 	if m > maxOperating {
 		m = maxOperating
 	}
@@ -1325,6 +1367,7 @@ func TestVerif_C08_DkgWallets(t *testing.T) {
 			kinds = append(kinds, kind)
 		}
 
+		c08CheckFinalGroup(t, w)
 		c08Debugf("dkg: %s seed=0x%s", w.describe(), w.seed.Text(16))
 		ok, why, err := c08RunDkg(w)
 		c08Debugf("dkg done: ok=%v %s", ok, why)
